@@ -609,9 +609,15 @@ def check_two_providers(acc):
         for i, (t1, t2) in enumerate([(41, 42), (51, 52), (61, 62)]):
             di = os.path.join(d, "site%d" % i, "texts")
             os.makedirs(di)
-            txt = "sysname *  %%timeout=%d\n    dialog: Q%d sure? ::: Y\ninterface *  %%timeout=%d\n    description ~  %%timeout=%d\n" % (t1, i, t2, t2 + 100)
+            txt = ("# site %d\nsysname *  %%timeout=%d\n    dialog: Q%d sure? ::: Y\n    # (a comment line)\n    dialog: Port #%d is busy, go on? ::: N\ninterface *  %%timeout=%d\n    description ~  %%timeout=%d\n"
+                   % (i, t1, i, i, t2, t2 + 100))
             open(os.path.join(di, "huawei.deploy"), "w").write(txt)
-            texts.append((os.path.dirname(di), t1, t2, i))
+            roots = (os.path.dirname(di), stock)
+            if i == 2:
+                # a self-sufficient site directory: its own copy of the patching rules, its deploy rules, and no ordering text at all
+                shutil.copy(os.path.join(stock, "texts", "huawei.rul"), os.path.join(di, "huawei.rul"))
+                roots = (os.path.dirname(di),)
+            texts.append((roots, t1, t2, i))
         pt = PatchTree()
         pt.add("sysname a", {})
         blk = PatchTree()
@@ -622,15 +628,15 @@ def check_two_providers(acc):
             from annet.vendors import registry_connector
             paths = registry_connector.get().match(hw).make_formatter().cmd_paths(pt)
             for site, t1, t2, i in texts + texts[:1]:
-                prov = DefaultRulebookProvider(root_dir=(site, stock))
+                prov = DefaultRulebookProvider(root_dir=site)
                 AD.get_rulebook = prov.get_rulebook
                 cl = list(AD.apply_deploy_rulebook(hw, paths, do_finalize=False, do_commit=False))
                 got = {c.cmd: (float(c.timeout), [q.question for q in (c.questions or [])]) for c in cl}
-                want = {"sysname a": (float(t1), ["Q%d sure?" % i]), "interface 10GE1/0/1": (float(t2), []), "description x": (float(t2 + 100), [])}
+                want = {"sysname a": (float(t1), ["Q%d sure?" % i, "Port #%d is busy, go on?" % i]), "interface 10GE1/0/1": (float(t2), []), "description x": (float(t2 + 100), [])}
                 acc.count("provider_instances_served")
                 acc.case(["providers", model, i], nontrivial=True)
                 if any(got.get(k) != v_ for k, v_ in want.items()):
-                    acc.violation("C09/deploy-rules-of-another-provider", "a provider built for other rulebook directories hands out the deploy rules an earlier provider compiled for the same hardware",
+                    acc.violation("C09/deploy-rules-not-those-of-the-providers-directories", "a provider does not hand out the deploy rules (timeouts, dialogs) written in its own rulebook directories",
                                   {"providers": True, "model": model, "site": i, "expected": {k: list(v_) for k, v_ in want.items()}, "got": {k: list(got.get(k) or []) for k in want}})
                     return
     finally:
